@@ -211,11 +211,43 @@ def task_bezier_sym(p, times):
 task_bezier_sym.contract_fn = "heavy.Operations.degree_increase_bezier"
 
 
+# --------------------------------------------------------------------------------------
+# engine B: the result of an elevation / reduction does not depend on what ran before in the same process
+# --------------------------------------------------------------------------------------
+def task_order():
+    """Elevation / reduction of a Fraction curve right after the same operation on a float (and an int) curve with numerically EQUAL knots:
+    the exact curve still gets exact control points, equal to those of a fresh history (0 == 0.0 == Fraction(0) must not be conflated)."""
+    fn = "curves.Curve.degree_increase"
+    out = []
+    F = Fraction
+    cases = {"bezier": ([0, 0, 0, 1, 1, 1], [1, 3, 2]), "spline": ([0, 0, 0, 1, 2, 2, 3, 3, 3], [1, -1, 4, 2, 0, 5])}
+    for name, (U, P) in cases.items():
+        for t in (1, 2):
+            T = spec.elevate_vector([F(x) for x in U], U.count(U[0]) - 1, t)
+            for first in ("float", "int"):
+                conv = float if first == "float" else int
+                warm = curves.Curve([conv(x) for x in U], [conv(x) for x in P])
+                warm.degree_increase(t)
+                c = curves.Curve([F(x) for x in U], [F(x, 3) for x in P])
+                c.degree_increase(t)
+                ok_types = all(type(x) in (int, Fraction) for x in c.ctrlpoints) and all(type(x) in (int, Fraction) for x in c.knotvector)
+                p = U.count(U[0]) - 1
+                same = bool(ok_types) and concrete_curve_equal([F(x) for x in U], [F(x, 3) for x in P], None, p, list(c.knotvector), list(c.ctrlpoints), None, c.degree)
+                same = same is True or (isinstance(same, tuple) and same[0] is True)
+                ok = ok_types and same and [F(x) for x in c.knotvector] == list(T)
+                out.append(ob("%s:after-%s-run[%s,t=%d]" % (fn, first, name, t), fn, PROVED if ok else FAILED, "B", "concrete", 0.0,
+                              "exact types %s, same function %s" % (ok_types, same), None if ok else dict(kind="c06.order", case=name, t=t, first=first)))
+    return out + [{"_stats": dict(cases=len(out))}]
+
+
+task_order.contract_fn = "curves.Curve.degree_increase"
+
+
 def tasks(tier, seed):
     from ..pyvc.driver import verify
     from ..contracts import misc
     from ..contracts import curvesv
-    ts = [(verify, (misc.BEZIER_ONCE, "heavy", "Operations.degree_increase_bezier_once", None))]
+    ts = [(verify, (misc.BEZIER_ONCE, "heavy", "Operations.degree_increase_bezier_once", None)), (task_order, ())]
     # shape-level contracts (all curves, all arguments): degree +- t, INV, refusals atomic; degree setter dispatches to them
     ts += [(verify, (c, m, q, v)) for c, m, q, v in curvesv.ALL if q in ("Curve.degree_increase", "Curve.degree_decrease", "BaseCurve.degree", "BaseCurve.apply")]
     for sh in tier_shapes(tier):
@@ -230,6 +262,10 @@ def tasks(tier, seed):
 
 
 def replay(o):
+    if (o.get("witness") or {}).get("kind") == "c06.order":
+        w = o["witness"]
+        r = [x for x in task_order() if "id" in x and x["id"].endswith(":after-%s-run[%s,t=%d]" % (w["first"], w["case"], w["t"]))][0]
+        return r["status"] == FAILED, "exact control points equal to a fresh history", r["detail"]
     w = o["witness"]
     shape = (w["shape"][0], tuple(w["shape"][1]))
     sc = w["scenario"]
